@@ -272,7 +272,7 @@ func planKey(r *rand.Rand, idx int, maxTTL int) *keyPlan {
 		}
 	}
 	// follow-up
-	switch r.Intn(16) {
+	switch r.Intn(18) {
 	case 0:
 		if p.typ == "string" {
 			p.follow = "SET (removes deadline)"
@@ -326,6 +326,39 @@ func planKey(r *rand.Rand, idx int, maxTTL int) *keyPlan {
 		p.follow = "RENAME of a key without deadline onto it (removes deadline)"
 		p.setup = append(p.setup, createCmd(p.typ, k+":src"), cmdOf("RENAME", k+":src", k))
 		p.control = true
+	case 15, 16:
+		// the key ceases to exist because a command emptied it (or stored an empty result over it, or moved it away);
+		// a key of that name created afterwards is a new key: it has no deadline and outlives the old one
+		var how []string
+		switch p.typ {
+		case "list":
+			how = [][]string{{"LPOP", k, "10"}, {"LTRIM", k, "5", "9"}, {"LREM", k, "0", "a"}, {"LMOVE", k, k + ":away", "LEFT", "LEFT"}, {"RPOP", k, "2"}}[r.Intn(5)]
+			if how[0] == "LREM" {
+				p.setup = append(p.setup, cmdOf("LREM", k, "0", "b"))
+			}
+			if how[0] == "LMOVE" {
+				p.setup = append(p.setup, cmdOf("LMOVE", k, k+":away", "LEFT", "LEFT"))
+			}
+		case "set":
+			how = [][]string{{"SREM", k, "a", "b"}, {"SPOP", k, "5"}, {"SMOVE", k, k + ":away", "a"}, {"SINTERSTORE", k, k, k + ":none"}}[r.Intn(4)]
+			if how[0] == "SMOVE" {
+				p.setup = append(p.setup, cmdOf("SMOVE", k, k+":away", "b"))
+			}
+		case "hash":
+			how = cmdOf("HDEL", k, "f")
+		case "zset":
+			how = cmdOf("ZREM", k, "a", "b")
+		case "stream":
+			how = cmdOf("RENAME", k, k+":away")
+		default:
+			how = [][]string{{"RENAME", k, k + ":away"}, {"SUNIONSTORE", k, k + ":none"}, {"SDIFFSTORE", k, k + ":none", k + ":none"}}[r.Intn(3)]
+		}
+		if r.Intn(4) == 0 {
+			how = [][]string{{"SUNIONSTORE", k, k + ":none"}, {"SINTERSTORE", k, k + ":none", k + ":none"}, {"SDIFFSTORE", k, k + ":none"}}[r.Intn(3)]
+		}
+		p.follow = "emptied or replaced by " + how[0] + ", then created again (new key, no deadline)"
+		p.setup = append(p.setup, how, createCmd(p.typ, k))
+		p.control = true
 	case 13, 14:
 		// a deadline centuries away replaces the near one: the key must simply stay (timer arithmetic on such
 		// distances is where it can go wrong); all values keep now+ttl inside the 63-bit range
@@ -335,9 +368,15 @@ func planKey(r *rand.Rand, idx int, maxTTL int) *keyPlan {
 		case p.typ == "string" && r.Intn(3) == 0:
 			p.follow = "SET EX centuries ahead (replaces deadline)"
 			p.setup = append(p.setup, cmdOf("SET", k, "15", "EX", huge))
-		case p.typ == "string" && r.Intn(2) == 0:
+		case p.typ == "string" && r.Intn(3) == 0:
 			p.follow = "SETEX centuries ahead (replaces deadline)"
 			p.setup = append(p.setup, cmdOf("SETEX", k, huge, "16"))
+		case p.typ == "string" && r.Intn(2) == 0:
+			p.follow = "SET PX centuries ahead in milliseconds (replaces deadline)"
+			p.setup = append(p.setup, cmdOf("SET", k, "17", "PX", []string{"9223372036855", "10000000000000", "99999999999999", "9223372036854775"}[r.Intn(4)]))
+		case p.typ == "string" && r.Intn(2) == 0:
+			p.follow = "SET EXAT centuries ahead (replaces deadline)"
+			p.setup = append(p.setup, cmdOf("SET", k, "18", "EXAT", "@abs9999999999"))
 		default:
 			p.follow = "EXPIRE centuries ahead (replaces deadline)"
 			p.setup = append(p.setup, cmdOf("EXPIRE", k, huge))
